@@ -596,6 +596,44 @@ func runNest(c *core.Ctx, idx *int) {
 		}
 		visit(s)
 	}
+	// chains: three and four operands at the loosest level, each of them a
+	// tighter operation, leaning left and leaning right (a == 1 && b < 2 || c == 3
+	// && d < 4): the reader corrects precedence by rotating, once per operand
+	for _, n := range []int{3, 4} {
+		spine, kids := []string{"||", "&&"}, []string{"==", "<"}
+		total := 2 // lean
+		for i := 0; i < n-1; i++ {
+			total *= len(spine)
+		}
+		for i := 0; i < n; i++ {
+			total *= len(kids)
+		}
+		for code := 0; code < total; code++ {
+			if c.Expired("C14 equation chains") {
+				return
+			}
+			x := code
+			left := x%2 == 0
+			x /= 2
+			var t *shape
+			for i := 0; i < n; i++ {
+				k := &shape{op: kids[x%len(kids)]}
+				x /= len(kids)
+				if t == nil {
+					t = k
+					continue
+				}
+				op := spine[x%len(spine)]
+				x /= len(spine)
+				if left {
+					t = &shape{op: op, l: t, r: k}
+				} else {
+					t = &shape{op: op, l: k, r: t}
+				}
+			}
+			visit(t)
+		}
+	}
 	if c.Quick() {
 		return
 	}
